@@ -7,7 +7,8 @@
       which resolvers answer synchronously and which through a promise, with which outcome, under
       which nullable / non-null / list / object type shape.  [map fst root] = k1..kn.
     - [sigma : sched] is the idle handler: any function from (idle round, outstanding promises) to
-      the promises it fulfils now.  The theorems quantify over all of them.
+      the promises it fulfils now; [oh : option sched] is the request's IdleHandler field ([None] =
+      nil).  The theorems quantify over all of them.
     - [run sigma Mutation fuel root] is the model of executeMutation (executeSelections with
       forceSerial = true, wait, the future library); [r_events r] is the global resolver log
       (resolver start / promise fulfilment, keyed by response path), [r_root r] the root result map.
@@ -23,7 +24,7 @@
     of the run so far.  They do not claim that a run returns.
     NOT PROVED (liveness, stage B):
       Theorem C11_mutation_terminates : forall sigma fuel root,
-        fair sigma -> count_async root <= fuel -> exists r, run sigma Mutation fuel root = Done r.
+        fair sigma -> count_async root <= fuel -> exists r, run (Some sigma) Mutation fuel root = Done r.
     Every generated case of the correspondence check is required to reach [Done] (a [Stuck] or
     [OutOfFuel] answer of the model is reported as a mismatch), and Examples/C11.v shows instances. *)
 From Coq Require Import List NArith.
@@ -32,33 +33,52 @@ From ApiFu Require Import Base.Sexp Serial.SerialPlan Serial.SerialFuture Serial
 Import ListNotations.
 
 (** the property, strict form: for every mutation, every assignment of synchronous / asynchronous
-    resolvers and every fulfilment schedule, in the global resolver log every event under k_i
-    precedes every event under k_{i+1} *)
-Theorem C11_mutation_serial : forall sigma fuel root,
+    resolvers and every fulfilment schedule ([oh = Some sigma], any function sigma; [None] = the
+    request has no idle handler), in the global resolver log every event under k_i precedes every
+    event under k_{i+1} *)
+Theorem C11_mutation_serial : forall oh fuel root,
   NoDup (map fst root) -> excl_abandoned_promise root = false ->
-  Serial (map fst root) (log_of (run sigma Mutation fuel root)).
+  Serial (map fst root) (log_of (run oh Mutation fuel root)).
 Proof. exact mutation_serial. Qed.
 
 (** ... because when the wait for a root field returns, every promise created so far has been
     fulfilled and received: nothing beneath the earlier root fields is outstanding *)
-Theorem C11_mutation_no_promise_left : forall sigma fuel root r,
+Theorem C11_mutation_no_promise_left : forall oh fuel root r,
   NoDup (map fst root) -> excl_abandoned_promise root = false ->
-  run sigma Mutation fuel root = Done r ->
+  run oh Mutation fuel root = Done r -> r_null r = false ->
   Forall (fun pr => p_st pr = PRecv) (r_proms r).
 Proof. exact mutation_no_promise_left. Qed.
 
+(** ... therefore each root field observes all side effects of its predecessors: when any event of
+    k_j happens (a resolver reads the shared state), the log so far already contains every side
+    effect (resolver start, promise fulfilment) the earlier root fields will ever have *)
+Theorem C11_mutation_observes_predecessors : forall oh fuel root,
+  NoDup (map fst root) -> excl_abandoned_promise root = false ->
+  ObservesPredecessors (map fst root) (log_of (run oh Mutation fuel root)).
+Proof. exact mutation_observes_predecessors. Qed.
+
 (** without the exclusion: no resolver belonging to an earlier root field starts after any event
     of a later root field; the only events that can come late are fulfilments of promises *)
-Theorem C11_mutation_serial_starts : forall sigma fuel root,
+Theorem C11_mutation_serial_starts : forall oh fuel root,
   NoDup (map fst root) ->
-  SerialStarts (map fst root) (log_of (run sigma Mutation fuel root)).
+  SerialStarts (map fst root) (log_of (run oh Mutation fuel root)).
 Proof. exact mutation_serial_starts. Qed.
 
 (** the response lists the root fields in document order *)
-Theorem C11_mutation_key_order : forall sigma fuel root r,
-  run sigma Mutation fuel root = Done r -> r_null r = false ->
+Theorem C11_mutation_key_order : forall oh fuel root r,
+  run oh Mutation fuel root = Done r -> r_null r = false ->
   KeysInOrder (map fst root) (slot_keys (r_root r)).
 Proof. exact mutation_key_order. Qed.
+
+(** the PROPOSED repair (checks/C11.proposed-drain.patch, not in the code: [run] is
+    [run_gen false]) is a verified one: with the drain step after each root field's wait the strict
+    order holds for EVERY plan, without the exclusion, and no promise is ever left behind *)
+Theorem C11_mutation_serial_with_drain : forall sigma fuel root,
+  NoDup (map fst root) ->
+  Serial (map fst root) (log_of (run_gen true (Some sigma) Mutation fuel root)) /\
+  forall r, run_gen true (Some sigma) Mutation fuel root = Done r -> r_null r = false ->
+            Forall (fun pr => p_st pr = PRecv) (r_proms r).
+Proof. exact mutation_serial_with_drain. Qed.
 
 (** the strict form is false without the exclusion (known finding "abandoned-promise"):
     mutation { a { x y } b }, x: Int! a promise that fails, y and b promises; x is fulfilled first:
@@ -66,7 +86,7 @@ Proof. exact mutation_key_order. Qed.
 Theorem C11_mutation_serial_refuted_when_promise_abandoned :
   exists sigma fuel root,
     fair sigma /\ NoDup (map fst root) /\ excl_abandoned_promise root = true /\
-    exists r, run sigma Mutation fuel root = Done r /\ ~ Serial (map fst root) (r_events r).
+    exists r, run (Some sigma) Mutation fuel root = Done r /\ ~ Serial (map fst root) (r_events r).
 Proof. exact mutation_serial_refuted_when_promise_abandoned. Qed.
 
 (** the executable oracle run on the implementation's log decides exactly [Serial] *)
@@ -83,14 +103,16 @@ Proof. exact sigma_ranks_fair. Qed.
 
 (** not vacuous: the same model, run as a query, does interleave the root fields *)
 Theorem C11_query_parallel_witness :
-  exists r, run (sigma_ranks [1; 0]) Query 3 wit_two = Done r /\
+  exists r, run (Some (sigma_ranks [1; 0])) Query 3 wit_two = Done r /\
             strict_serial (map fst wit_two) (r_events r) = false /\
             ~ Serial (map fst wit_two) (r_events r).
 Proof. exact query_parallel_witness. Qed.
 
 Print Assumptions C11_mutation_serial.
 Print Assumptions C11_mutation_no_promise_left.
+Print Assumptions C11_mutation_observes_predecessors.
 Print Assumptions C11_mutation_serial_starts.
+Print Assumptions C11_mutation_serial_with_drain.
 Print Assumptions C11_mutation_key_order.
 Print Assumptions C11_mutation_serial_refuted_when_promise_abandoned.
 Print Assumptions C11_oracle_sound.
